@@ -127,6 +127,11 @@ class AngleMonitors:
             if type(result).__name__ != want:
                 ctx.violation(name + ':wrong-class', case, {'got': type(result).__name__, 'want': want})
                 return
+        if dk == 'obj' and ax.float_value_mismatch(result):
+            # a DECAngle is a float: read as one (math.radians, numpy) it must be the angle its field holds
+            ctx.violation(name + ':result-read-as-float-differs-from-its-angle', case,
+                          {'float_value': ax.float_value_mismatch(result)[0], 'dec_angle': ax.float_value_mismatch(result)[1]})
+            return
         try:
             vout = denote_fast(dk, result)
         except Exception as e:
